@@ -166,24 +166,104 @@ func trimZeros(b []byte) []byte {
 	return b[i:]
 }
 
+// caller makes the caller's slice for a call: the bytes with spare capacity behind them.
+func caller(v string) []byte {
+	buf := make([]byte, len(v), len(v)+24)
+	copy(buf, v)
+	return buf
+}
+
+// scribble plays the caller who reuses a buffer it passed to, or got from, the store.
+func scribble(b []byte) {
+	b = b[:cap(b)]
+	for i := range b {
+		b[i] = 0xEE
+	}
+}
+
+// isolationProbe checks, sequentially and before the goroutines start, that the store
+// neither keeps a slice the caller passed in nor hands out one it still uses.
+func isolationProbe(kv *pisces.KV) string {
+	const k = "probe-value-isolation"
+	want := ""
+	check := func(step string) string {
+		got, err := kv.GetBytes(k)
+		if err != nil {
+			return step + ": GetBytes: " + classify("get", err)
+		}
+		if string(got) != want {
+			return fmt.Sprintf("%s: the key holds %q, the reference map %q", step, got, want)
+		}
+		scribble(got) // the returned slice is the caller's to overwrite
+		got2, err := kv.GetBytes(k)
+		if err != nil || string(got2) != want {
+			return fmt.Sprintf("%s: after the caller overwrote the slice GetBytes returned, the key holds %q, the reference map %q", step, got2, want)
+		}
+		return ""
+	}
+	steps := []struct {
+		name string
+		do   func(b []byte) error
+		val  string
+		app  bool
+	}{
+		{"AppendBytes creating the key", func(b []byte) error { return kv.AppendBytes(k, b) }, "12", true},
+		{"AppendBytes on the existing key", func(b []byte) error { return kv.AppendBytes(k, b) }, "34", true},
+		{"SetBytes", func(b []byte) error { return kv.SetBytes(k, b) }, "567", false},
+		{"AppendBytes after SetBytes", func(b []byte) error { return kv.AppendBytes(k, b) }, "8", true},
+	}
+	for _, st := range steps {
+		b := caller(st.val)
+		if err := st.do(b); err != nil {
+			kv.Remove(k)
+			return "" // a busy store is not this probe's business
+		}
+		if st.app {
+			want += st.val
+		} else {
+			want = st.val
+		}
+		scribble(b)
+		if msg := check(st.name); msg != "" {
+			kv.Remove(k)
+			return msg
+		}
+	}
+	kv.Remove(k)
+	return ""
+}
+
 func exec(kv *pisces.KV, c *call) string {
 	switch c.name {
 	case "add":
-		return classify(c.name, kv.Add(c.key, json.RawMessage(c.val)))
+		b := caller(c.val)
+		defer scribble(b)
+		return classify(c.name, kv.Add(c.key, json.RawMessage(b)))
 	case "emplace":
-		return classify(c.name, kv.Emplace(c.key, json.RawMessage(c.val)))
+		b := caller(c.val)
+		defer scribble(b)
+		return classify(c.name, kv.Emplace(c.key, json.RawMessage(b)))
 	case "replace":
-		return classify(c.name, kv.Replace(c.key, json.RawMessage(c.val)))
+		b := caller(c.val)
+		defer scribble(b)
+		return classify(c.name, kv.Replace(c.key, json.RawMessage(b)))
 	case "remove":
 		return classify(c.name, kv.Remove(c.key))
 	case "appendBytes":
-		return classify(c.name, kv.AppendBytes(c.key, []byte(c.val)))
+		b := caller(c.val)
+		defer scribble(b) // the caller reuses its buffer as soon as the call is back
+		return classify(c.name, kv.AppendBytes(c.key, b))
 	case "get":
 		bs, err := kv.GetBytes(c.key)
 		if err != nil {
 			return classify(c.name, err)
 		}
-		return "ok:" + hx.Hex(bs)
+		out := "ok:" + hx.Hex(bs)
+		if c.key == kBig {
+			out = "ok:" + uniform(bs)
+		}
+		scribble(bs)
+		return out
 	case "mutate":
 		saw := "none"
 		raw := new(json.RawMessage)
@@ -423,7 +503,25 @@ const (
 	kLog   = "log"   // AppendBytes of tagged chunks, Get
 	kMix1  = "mix1"  // everything
 	kMix2  = "mix2"
+	// kBig is outside the linearization: Replace of long uniform values (one byte repeated) against
+	// Gets, which must return a uniform value - a Get that copies while a writer rewrites in place is torn
+	kBig = "big"
 )
+
+const bigLen = 4096
+
+// uniform describes a value compactly: u<byte>x<len> when every byte is the same.
+func uniform(bs []byte) string {
+	for i := range bs {
+		if bs[i] != bs[0] {
+			return fmt.Sprintf("TORN(len=%d, byte %d is %q after %q)", len(bs), i, bs[i], bs[0])
+		}
+	}
+	if len(bs) == 0 {
+		return "TORN(empty)"
+	}
+	return fmt.Sprintf("u%cx%d", bs[0], len(bs))
+}
 
 var allKeys = []string{kCtr, kOnce, kFirst, kLog, kMix1, kMix2}
 
@@ -442,6 +540,7 @@ type result struct {
 	hung    bool
 	wedged  bool
 	probe   string
+	iso     string // value-isolation probe of the set-up phase ("" = held)
 	elapsed time.Duration
 }
 
@@ -462,11 +561,20 @@ func program(cfg roundCfg) [][]*call {
 	if r.Intn(5) == 0 {
 		hot = allKeys
 	}
+	if r.Intn(4) == 0 {
+		hot = []string{kBig}
+	}
 	for g := range progs {
 		for i := 0; i < cfg.m; i++ {
 			c := &call{g: g, seq: i, key: hx.Pick(r, hot)}
 			tag := fmt.Sprintf("%d.%d", g, i)
 			switch c.key {
+			case kBig:
+				c.name = hx.Pick(r, []string{"replace", "get", "get"})
+				if g == 0 {
+					c.name = "replace" // at least one writer
+				}
+				c.val = strings.Repeat(strconv.Itoa(1+(g+i)%9), bigLen)
 			case kCtr:
 				c.name = hx.Pick(r, []string{"mutate", "mutate", "mutate", "get"})
 			case kOnce:
@@ -661,7 +769,7 @@ func (e *env) schedCommitBusy(cfg roundCfg, watchdog time.Duration) (*result, er
 		return nil, fmt.Errorf("set-up Add: %v", err)
 	}
 	var clock int64
-	res := &result{cfg: cfg}
+	res := &result{cfg: cfg, iso: isolationProbe(kv)}
 	var mu sync.Mutex
 	record := func(c *call) {
 		mu.Lock()
@@ -744,6 +852,7 @@ func (e *env) runRound(cfg roundCfg, watchdog time.Duration) (*result, error) {
 	if err := kv.Add(kCtr, json.RawMessage("0")); err != nil {
 		return nil, fmt.Errorf("set-up Add: %v", err)
 	}
+	iso := isolationProbe(kv)
 	progs := program(cfg)
 	var clock int64
 	var wg sync.WaitGroup
@@ -762,7 +871,7 @@ func (e *env) runRound(cfg roundCfg, watchdog time.Duration) (*result, error) {
 	}
 	t0 := time.Now()
 	close(start)
-	res := &result{cfg: cfg}
+	res := &result{cfg: cfg, iso: iso}
 	if !hx.WithTimeout(watchdog, wg.Wait) {
 		res.hung = true
 		return res, nil
@@ -771,6 +880,7 @@ func (e *env) runRound(cfg roundCfg, watchdog time.Duration) (*result, error) {
 	for _, p := range progs {
 		res.calls = append(res.calls, p...)
 	}
+	kv.Remove(kBig) // not part of the linearization nor of the dump
 	if !hx.WithTimeout(watchdog, func() { res.observe(st) }) {
 		res.hung = true // a quiescent Count/Walk/dump that does not return
 	}
@@ -811,11 +921,23 @@ func (res *result) judge(rep *hx.Report) (fails [][2]string, v verdict) {
 			fail("unexpected-error", "%s returned %s", c.line(res.cfg.store), c.out)
 			continue
 		}
+		if c.key == kBig {
+			rep.Count("big-key-calls:" + who)
+			if c.name == "get" && c.out != "notFound" && !strings.HasPrefix(c.out, "ok:u") {
+				fail("torn-read", "Get of a key that only ever held %d-byte values of one repeated byte returned %s: "+
+					"the value was copied while a writer rewrote it", bigLen, c.out)
+			}
+			continue
+		}
 		byKey[c.key] = append(byKey[c.key], c)
 	}
 	if res.wedged {
 		fail("store-wedged", "with every goroutine back, the database file stayed locked until the store was closed "+
 			"(a pooled connection was left inside a transaction); Count then answered %s", res.count)
+	}
+	if res.iso != "" {
+		fail("caller-slice-aliased", "value isolation: the caller overwrote (over its full capacity) a slice it had passed to or got "+
+			"from the store and the stored value moved - %s", res.iso)
 	}
 	if res.probe != "ok" && res.probe != "skipped" {
 		fail("busy-at-quiescence", "with every goroutine back and nobody using the store, Add of a fresh key answered %s: "+
